@@ -6,7 +6,6 @@ import catalog
 
 ids = [json.loads(l)['id'] for l in open('/verif/properties.jsonl')]
 NA = {
-    'C14': 'Pure integer arithmetic over (lo, hi): ceil(log2(len)) - 5, a shift and a sum must produce the right numbers for every domain. No structural necessary condition survives a behaviour-preserving rewrite of the arithmetic, and deciding the numbers means evaluating them (exploration or SMT: other technique families). The only structural residue (the ilog2 argument is guarded, shifts bounded) is checked under C10.',
     'C15': 'A relation between two bit-twiddling functions on a finite 528 x 528 domain; settled by exhaustive evaluation, which is running the code, not static analysis. A static rule would have to freeze the text of the bit loops.',
 }
 PROVISIONAL = 'provisional: the rule(s) for this property are not armed yet (DESIGN.md section 9 order); not claimed until they are'
